@@ -56,6 +56,11 @@ def run(tier, seed):
     if lu.ok or lu.violation != "NoLostUpdate":
         raise vlib.Infra("the lost-update interleaving is not reachable in CowCache: the model is vacuous")
     ck.add_mc(lu, "MC_CowCacheLostUpdate(reachability witness)")
+    # deviation witness: a mutex that only covers the second load loses entries and identities
+    eu = vlib.tlc("CowCache", "MC_CowCacheEarlyUnlock.cfg", timeout=600, tag="CowCache-eu")
+    if eu.ok or eu.violation not in ("NoLossWhenLocked", "IdentityStableWhenLocked"):
+        raise vlib.Infra("CowCache with EarlyUnlock should lose an entry or an identity: the model is vacuous")
+    ck.add_mc(eu, "MC_CowCacheEarlyUnlock(deviation witness)")
     ck.binary = vlib.build_harness()
     race = vlib.build_harness(race=True)
     # TLC enumerates the interleavings of the visible cache steps; each is forced on real goroutines (gated replay)
@@ -74,6 +79,31 @@ def run(tier, seed):
         f.write("".join(x + "\n" for x in uniq))
     kept, total = vlib.cap_vectors(sched, 4000 if thorough else 700, seed)
     ck.notes["schedules"] = {"distinct": total, "replayed": kept}
+    # schedules of the early-unlock deviation that the mutex forbids: the replay must prove them infeasible on the real
+    # goroutines (a goroutine sent to its locked load while another sits between its locked load and its store must
+    # not arrive), and whatever happens TypeOf must hand out one Type per Go type
+    import json as _json
+    import random as _random
+    allowed = set(_json.dumps(_json.loads(x)["sched"]) for x in uniq if '"locked":true' in x)
+    forb = []
+    for calls in ((1, 2) if thorough else (1,)):
+        with open(raw, "w") as sink:
+            g = vlib.must_hold(vlib.tlc("CowCacheSched", "Gen_CowCacheSched.cfg", sink=sink, timeout=1500, tag="CowCacheSched-early-%d" % calls,
+                                        defines={"Locked": "TRUE", "EarlyUnlock": "TRUE", "MaxCalls": calls}), "schedules of the early-unlock deviation")
+        ck.add_mc(g, "Gen_CowCacheSched(EarlyUnlock, MaxCalls=%d)" % calls)
+        for x in sorted(set(open(raw).read().splitlines())):
+            d = _json.loads(x)
+            if _json.dumps(d["sched"]) not in allowed:
+                d["forbidden"] = True
+                forb.append(_json.dumps(d))
+        os.unlink(raw)
+    if not forb:
+        raise vlib.Infra("the early-unlock deviation has no schedule that the mutex forbids: the probe is vacuous")
+    _random.Random(seed).shuffle(forb)
+    forb = forb[:(150 if thorough else 16)]
+    with open(sched, "a") as f:
+        f.write("".join(x + "\n" for x in forb))
+    ck.notes["schedules"]["forbidden_probed"] = len(forb)
     drift = None
     for b in (ck.binary, race):
         rr = vlib.run_harness(b, PROP, sched, seed=seed, tier=tier, shards=1, timeout=2400, isolate=True)
